@@ -15,11 +15,26 @@ use std::mem::MaybeUninit;
 use std::num::NonZeroU32;
 use std::ptr;
 use std::ptr::NonNull;
+#[cfg(not(all(feature = "isographlabs_isograph_verif", not(test))))]
 use std::sync::atomic::AtomicPtr;
+#[cfg(not(all(feature = "isographlabs_isograph_verif", not(test))))]
 use std::sync::atomic::AtomicU32;
 use std::sync::atomic::Ordering;
 
+#[cfg(not(all(feature = "isographlabs_isograph_verif", not(test))))]
 use parking_lot::Mutex;
+
+// Verification builds (never the crate's own unit tests) route every
+// synchronisation operation through the shims; `parking_lot::const_mutex`
+// below then names the shim constructor.
+#[cfg(all(feature = "isographlabs_isograph_verif", not(test)))]
+use crate::verif_sync as parking_lot;
+#[cfg(all(feature = "isographlabs_isograph_verif", not(test)))]
+use crate::verif_sync::AtomicPtr;
+#[cfg(all(feature = "isographlabs_isograph_verif", not(test)))]
+use crate::verif_sync::AtomicU32;
+#[cfg(all(feature = "isographlabs_isograph_verif", not(test)))]
+use crate::verif_sync::Mutex;
 
 const MIN_SHIFT: u32 = 7;
 const U32_BITS: usize = 32;
